@@ -32,6 +32,8 @@ func (r *OblResult) verdict() string {
 		return "discharged"
 	case "sat":
 		return "refuted"
+	case "error":
+		return "ENGINE-ERROR"
 	}
 	return "undecided"
 }
@@ -174,6 +176,9 @@ func cmdVerify(args []string) {
 		v := j.verdict()
 		counts[v]++
 		fmt.Printf("%-11s %-8s %5.2fs %s   [%s] %s\n", v, j.Res.Solver, j.Res.Secs, j.Obl.Name, j.Obl.Pos, j.Obl.Text)
+		if v == "ENGINE-ERROR" {
+			fmt.Printf("    solver said: %s\n", trunc(strings.ReplaceAll(j.Res.Output, "\n", " "), 300))
+		}
 		if v == "refuted" {
 			m := strings.TrimSpace(strings.TrimPrefix(strings.TrimSpace(j.Res.Model), "sat"))
 			if len(m) > 1500 {
